@@ -164,7 +164,7 @@ fn check_series(fam: &str, word: &[u8], x: Vec<X>, ctx: &mut Ctx) {
     ctx.nontrivial(fam, mix(hash_bytes(word), hash_u64s(&x.iter().map(|v| v.map_or(7, |a| a.to_bits())).collect::<Vec<_>>())));
     let null_free = x.iter().all(|v| v.is_some());
     let long = len > 16;
-    let ws: Vec<usize> = if long {
+    let mut ws: Vec<usize> = if long {
         let mut v = vec![0usize, 1, 2, 16, 17, 255, 256, 257, len - 1, len, len + 1, len + 3];
         v.retain(|w| *w <= len + 3);
         v.sort();
@@ -173,6 +173,10 @@ fn check_series(fam: &str, word: &[u8], x: Vec<X>, ctx: &mut Ctx) {
     } else {
         (0..=len + 3).collect()
     };
+    // "expanding window" requests: sizes that do not survive a cast to a signed or narrower integer
+    if long || len == 3 {
+        ws.extend([usize::MAX, usize::MAX - 1, 1usize << 63, (1usize << 63) - 1]);
+    }
     let ks: Vec<usize> = if long {
         let mut v = vec![0usize, 1, 15, 16, 17, len / 2, len - 1, len, len + 2];
         v.sort();
@@ -183,7 +187,7 @@ fn check_series(fam: &str, word: &[u8], x: Vec<X>, ctx: &mut Ctx) {
     };
     for w in ws {
         let mut mps: Vec<Option<usize>> = vec![None];
-        if long {
+        if long || w > len + 3 {
             mps.extend([Some(0), Some(1), Some(w)]);
             mps.dedup();
         } else {
@@ -196,14 +200,14 @@ fn check_series(fam: &str, word: &[u8], x: Vec<X>, ctx: &mut Ctx) {
                         probe_reset();
                         let out = roll1(f, &x, w, mp, path, input);
                         let entry = r1_name(f, true);
-                        record(ctx, fam, &entry, json!({"family": fam, "word": word, "series": json_word(&x), "entry": entry, "w": w, "mp": mp_json(mp), "input": format!("{input:?}"), "path": format!("{path:?}")}), len * 100 + w, w == 0 || len == 0, out, w);
+                        record(ctx, fam, &entry, json!({"family": fam, "word": word, "series": json_word(&x), "entry": entry, "w": w, "mp": mp_json(mp), "input": format!("{input:?}"), "path": format!("{path:?}")}), (len * 100).saturating_add(w), w == 0 || len == 0, out, w);
                     }
                     if null_free && mp.map_or(true, |m| m == 0 || m == w) {
                         for &f in &plain_fns() {
                             probe_reset();
                             let out = roll1_plain(f, &x, w, mp, path, input);
                             let entry = r1_name(f, false);
-                            record(ctx, fam, &entry, json!({"family": fam, "word": word, "series": json_word(&x), "entry": entry, "w": w, "mp": mp_json(mp), "input": format!("{input:?}"), "path": format!("{path:?}")}), len * 100 + w, w == 0 || len == 0, out, w);
+                            record(ctx, fam, &entry, json!({"family": fam, "word": word, "series": json_word(&x), "entry": entry, "w": w, "mp": mp_json(mp), "input": format!("{input:?}"), "path": format!("{path:?}")}), (len * 100).saturating_add(w), w == 0 || len == 0, out, w);
                         }
                     }
                 }
@@ -226,7 +230,7 @@ fn check_series(fam: &str, word: &[u8], x: Vec<X>, ctx: &mut Ctx) {
                             probe_reset();
                             let out = roll2(f, &x, &b, w, mp, path, input);
                             let entry = r2_name(f);
-                            record(ctx, fam, &entry, json!({"family": fam, "word": word, "series": json_word(&x), "second_len": blen, "entry": entry, "w": w, "mp": mp_json(mp), "input": format!("{input:?}"), "path": format!("{path:?}")}), len * 100 + w, w == 0 || dl != 0, out, w);
+                            record(ctx, fam, &entry, json!({"family": fam, "word": word, "series": json_word(&x), "second_len": blen, "entry": entry, "w": w, "mp": mp_json(mp), "input": format!("{input:?}"), "path": format!("{path:?}")}), (len * 100).saturating_add(w), w == 0 || dl != 0, out, w);
                         }
                     }
                 }
